@@ -291,29 +291,34 @@ def expectations(model: Model) -> Dict[str, list]:
     enums/subints nested in an interface appear where the interface appears)."""
     out: Dict[str, list] = {k: [] for k in KINDS}
 
-    def canon_type(t, scope):
+    def canon_type(t, scope, shape):
         if isinstance(t, Enum):
             return {'kind': 'enum', 'fqn': scope + t.name, 'ns': list(scope), 'name': list(t.name),
-                    'fields': list(t.fields)}
+                    'ns_shape': [list(x) for x in shape], 'fields': list(t.fields)}
         return {'kind': 'subint', 'fqn': scope + t.name, 'ns': list(scope), 'name': list(t.name),
-                'lo': t.lo, 'hi': t.hi}
+                'ns_shape': [list(x) for x in shape], 'lo': t.lo, 'hi': t.hi}
 
-    def walk(elements, scope: List[str]):
+    def walk(elements, scope: List[str], shape: List[List[str]]):
+        # `shape`: the namespace names as written, one entry per namespace element (a compound
+        # name My.Project is one entry) - the parent chain of a declaration mirrors it
         for e in elements:
             if isinstance(e, Namespace):
-                walk(e.elements, scope + e.name)
+                walk(e.elements, scope + e.name, shape + [list(e.name)])
             elif isinstance(e, Unknown):
                 continue
             elif isinstance(e, (Enum, SubInt)):
-                ent = canon_type(e, scope)
+                ent = canon_type(e, scope, shape)
                 out['enums' if isinstance(e, Enum) else 'subints'].append(ent)
             elif isinstance(e, Extern):
                 out['externs'].append({'fqn': scope + e.name, 'ns': list(scope),
+                                       'ns_shape': [list(x) for x in shape],
                                        'name': list(e.name), 'data': e.data})
             elif isinstance(e, Interface):
                 iscope = scope + e.name
-                types = [canon_type(t, iscope) for t in e.types if not isinstance(t, Unknown)]
+                types = [canon_type(t, iscope, shape + [list(e.name)]) for t in e.types
+                         if not isinstance(t, Unknown)]
                 out['interfaces'].append({'fqn': scope + e.name, 'ns': list(scope),
+                                          'ns_shape': [list(x) for x in shape],
                                           'name': list(e.name), 'trail': iscope,
                                           'types': types,
                                           'events': [_canon_event(ev) for ev in e.events]})
@@ -322,10 +327,12 @@ def expectations(model: Model) -> Dict[str, list]:
             elif isinstance(e, (Component, Foreign)):
                 key = 'components' if isinstance(e, Component) else 'foreigns'
                 out[key].append({'fqn': scope + e.name, 'ns': list(scope), 'name': list(e.name),
+                                 'ns_shape': [list(x) for x in shape],
                                  'ports': _canon_ports(e.ports)})
             elif isinstance(e, System):
                 out['systems'].append({
                     'fqn': scope + e.name, 'ns': list(scope), 'name': list(e.name),
+                    'ns_shape': [list(x) for x in shape],
                     'ports': _canon_ports(e.ports),
                     'instances': [{'name': i.name, 'type': list(i.type.ids)}
                                   for i in e.instances],
@@ -339,7 +346,7 @@ def expectations(model: Model) -> Dict[str, list]:
             else:
                 raise TypeError(e)
 
-    walk(model.elements, [])
+    walk(model.elements, [], [])
     return out
 
 
@@ -359,6 +366,15 @@ def canon_filecontents(fc) -> Dict[str, list]:
             flat.extend(part)
         return flat
 
+    def shape_of(tree) -> List[List[str]]:
+        chain = []
+        node = tree
+        while node is not None:
+            if node.scope_name is not None:
+                chain.append(list(node.scope_name.items))
+            node = node.parent
+        return list(reversed(chain))
+
     def ports(pp) -> list:
         return [{'name': p.name, 'type': list(p.type_name.value.items),
                  'direction': {'Provides': 'provides', 'Requires': 'requires'}[p.direction.value],
@@ -366,11 +382,11 @@ def canon_filecontents(fc) -> Dict[str, list]:
                  'formals': [repr(f) for f in p.formals.elements]} for p in pp.elements]
 
     def enum(e) -> dict:
-        return {'kind': 'enum', 'fqn': list(e.fqn.items), 'ns': ns_of(e.parent_ns),
+        return {'kind': 'enum', 'fqn': list(e.fqn.items), 'ns': ns_of(e.parent_ns), 'ns_shape': shape_of(e.parent_ns),
                 'name': list(e.name.value.items), 'fields': list(e.fields.elements)}
 
     def subint(s) -> dict:
-        return {'kind': 'subint', 'fqn': list(s.fqn.items), 'ns': ns_of(s.parent_ns),
+        return {'kind': 'subint', 'fqn': list(s.fqn.items), 'ns': ns_of(s.parent_ns), 'ns_shape': shape_of(s.parent_ns),
                 'name': list(s.name.value.items), 'lo': s.range.from_int, 'hi': s.range.to_int}
 
     def typ(t) -> dict:
@@ -385,7 +401,7 @@ def canon_filecontents(fc) -> Dict[str, list]:
                             for f in e.signature.formals.elements]}
 
     def comp(c) -> dict:
-        return {'fqn': list(c.fqn.items), 'ns': ns_of(c.parent_ns),
+        return {'fqn': list(c.fqn.items), 'ns': ns_of(c.parent_ns), 'ns_shape': shape_of(c.parent_ns),
                 'name': list(c.name.value.items), 'ports': ports(c.ports)}
 
     out: Dict[str, list] = {}
@@ -393,10 +409,10 @@ def canon_filecontents(fc) -> Dict[str, list]:
     out['foreigns'] = [comp(c) for c in fc.foreigns]
     out['enums'] = [enum(e) for e in fc.enums]
     out['subints'] = [subint(s) for s in fc.subints]
-    out['externs'] = [{'fqn': list(x.fqn.items), 'ns': ns_of(x.parent_ns),
+    out['externs'] = [{'fqn': list(x.fqn.items), 'ns': ns_of(x.parent_ns), 'ns_shape': shape_of(x.parent_ns),
                        'name': list(x.name.value.items), 'data': x.value.value}
                       for x in fc.externs]
-    out['interfaces'] = [{'fqn': list(i.fqn.items), 'ns': ns_of(i.parent_ns),
+    out['interfaces'] = [{'fqn': list(i.fqn.items), 'ns': ns_of(i.parent_ns), 'ns_shape': shape_of(i.parent_ns),
                           'name': list(i.name.value.items), 'trail': ns_of(i.ns_trail),
                           'types': [typ(t) for t in i.types.elements],
                           'events': [event(e) for e in i.events.elements]}
